@@ -138,76 +138,8 @@ class Tags:
                 self.tag(s.value)
 
 
-def d1_pairing(ctx):
-    rule = 'C05-D1'
-    obs = ctx.repo.mod('obs')
-    # reweight
-    f = obs.func('reweight')
-    t = Tags(ctx, obs, f, rule)
-    t.run()
-    n_prod = t.products
-    # the Obs built from the products lives on the observable's own lists
-    for c in walk(f):
-        if isinstance(c, ast.Call) and call_name(c) == 'Obs' and kwarg(c, 'idl') is not None:
-            idl = kwarg(c, 'idl')
-            ok = isinstance(idl, ast.ListComp) and _idl_ref(idl.elt) is not None and _idl_ref(idl.elt)[0].startswith(f.args.args[1].arg)
-            same_order = isinstance(idl, ast.ListComp) and unparse(idl.generators[0].iter) == unparse(c.args[1])
-            ctx.check(rule, 'obs.py:reweight#Obs-idl[%s]' % unparse(c.args[0])[:30], ok and same_order,
-                      'result is defined on the configurations of the reweighted observable, names and idl in one order',
-                      'result built with names %s but idl %s' % (unparse(c.args[1]), unparse(idl)), obs.loc(c))
-    # all_configs -> normalisation by the full weight
-    st = [s for s in statements(f) if isinstance(s, ast.Assign) and unparse(s.targets[0]) == 'new_weight']
-    if len(st) == 2:
-        def _pos(tt, pol):
-            while isinstance(tt, ast.UnaryOp) and isinstance(tt.op, ast.Not):
-                tt, pol = tt.operand, not pol
-            return tt, pol
-        full = [s for s in st if any(_pos(tt, pol)[1] and unparse(_pos(tt, pol)[0]) in ("kwargs.get('all_configs')", "kwargs.get('all_configs') is True") for tt, pol in guards_of(obs, s, stop=f))]
-        ok = len(full) == 1 and unparse(full[0].value) == f.args.args[0].arg
-        ctx.check(rule, 'obs.py:reweight#all_configs', ok, 'all_configs normalises by the weight on all its configurations', 'all_configs branch uses %s' % [unparse(s.value) for s in full])
-    else:
-        ctx.unrec(rule, 'obs.py:reweight#all_configs', 'expected two assignments of the normalising weight')
-    # ratio
-    rat = [c for c in walk(f) if isinstance(c, ast.BinOp) and isinstance(c.op, ast.Div) and unparse(c.right) == 'new_weight']
-    ctx.check(rule, 'obs.py:reweight#ratio', len(rat) == 1 and unparse(rat[0].left) == 'tmp_obs', '<w o>/<w>', 'ratio not found as tmp_obs / new_weight')
-
-    # correlate
-    f = obs.func('correlate')
-    t = Tags(ctx, obs, f, rule)
-    t.run()
-    n_prod += t.products
-    # the idl equality guard must run over all names before the product loop
-    guard_loops = [s for s in f.body if isinstance(s, ast.For) and any(isinstance(x, ast.Raise) for x in walk(s))]
-    okl = bool(guard_loops) and all(unparse(g.iter).endswith('.names') for g in guard_loops)
-    ctx.check(rule, 'obs.py:correlate#guard-covers-all-chains', okl, 'the equality guard runs over every chain name', 'guard loop iterates %s' % [unparse(g.iter) for g in guard_loops])
-    # _covariance_element.calc_gamma
-    f = obs.func('_covariance_element.calc_gamma')
-    p = [a.arg for a in f.args.args]
-    t = Tags(ctx, obs, f, rule)
-    # parameters: deltas_i is defined on idx_i
-    t.env = {p[0]: ('name', p[2]), p[1]: ('name', p[3])}
-    t.run()
-    n_prod += t.products
-    outer = obs.func('_covariance_element')
-    for c in walk(outer):
-        if isinstance(c, ast.Call) and isinstance(c.func, ast.Name) and c.func.id == 'calc_gamma' and len(c.args) == 5:
-            d1, d2, i1, i2 = _deltas_ref(c.args[0]), _deltas_ref(c.args[1]), _idl_ref(c.args[2]), _idl_ref(c.args[3])
-            key = 'obs.py:_covariance_element#%s' % unparse(c)[:70]
-            if None in (d1, d2, i1, i2):
-                ctx.unrec(rule, key, 'arguments not of the form X.deltas[k], Y.deltas[k], X.idl[k], Y.idl[k]', obs.loc(c))
-            else:
-                okc = d1 == i1 and d2 == i2 and d1[1] == d2[1] and unparse(c.args[4]).endswith('[%s]' % d1[1])
-                ctx.check(rule, key, okc, 'each fluctuation array is passed with its own configuration list, target = intersection for the same replica',
-                          'fluctuations and configuration lists are mismatched in %s' % unparse(c), obs.loc(c))
-    # intersection built from both lists of the same replica
-    inter = [c for c in walk(outer) if isinstance(c, ast.Call) and call_name(c) == '_intersection_idx']
-    for c in inter:
-        a = c.args[0]
-        ok = isinstance(a, ast.List) and len(a.elts) == 2 and all(_idl_ref(e) for e in a.elts) and _idl_ref(a.elts[0])[1] == _idl_ref(a.elts[1])[1] \
-            and _idl_ref(a.elts[0])[0] != _idl_ref(a.elts[1])[0]
-        ctx.check(rule, 'obs.py:_covariance_element#intersection', ok, 'common configurations of the same replica of both observables', 'intersection of %s' % unparse(a), obs.loc(c))
-    ctx.floor('element-wise products of two tagged arrays', n_prod, 3)
-
+def reduce_deltas_rules(ctx, obs, rule):
+    """_reduce_deltas selects by configuration number; shared with C06 (the covariance of observables on nested lists goes through it)"""
     # _reduce_deltas: selects by configuration number (intersect1d indices), never a positional slice
     f = obs.func('_reduce_deltas')
     p = [a.arg for a in f.args.args]
@@ -279,6 +211,80 @@ def d1_pairing(ctx):
         ctx.check(rule, key, ok, 'strided slice starts at (idx_new.start - idx_old.start)/idx_old.step with stride idx_new.step/idx_old.step',
                   'the strided shortcut takes positions %s + j*(%s) of the old list; configuration idx_new.start + j*idx_new.step sits at position (start_new - start_old)/step_old + j*step_new/step_old: '
                   'a difference of configuration numbers is used as an array position' % (a_, b_), obs.loc(s))
+
+
+
+def d1_pairing(ctx):
+    rule = 'C05-D1'
+    obs = ctx.repo.mod('obs')
+    # reweight
+    f = obs.func('reweight')
+    t = Tags(ctx, obs, f, rule)
+    t.run()
+    n_prod = t.products
+    # the Obs built from the products lives on the observable's own lists
+    for c in walk(f):
+        if isinstance(c, ast.Call) and call_name(c) == 'Obs' and kwarg(c, 'idl') is not None:
+            idl = kwarg(c, 'idl')
+            ok = isinstance(idl, ast.ListComp) and _idl_ref(idl.elt) is not None and _idl_ref(idl.elt)[0].startswith(f.args.args[1].arg)
+            same_order = isinstance(idl, ast.ListComp) and unparse(idl.generators[0].iter) == unparse(c.args[1])
+            ctx.check(rule, 'obs.py:reweight#Obs-idl[%s]' % unparse(c.args[0])[:30], ok and same_order,
+                      'result is defined on the configurations of the reweighted observable, names and idl in one order',
+                      'result built with names %s but idl %s' % (unparse(c.args[1]), unparse(idl)), obs.loc(c))
+    # all_configs -> normalisation by the full weight
+    st = [s for s in statements(f) if isinstance(s, ast.Assign) and unparse(s.targets[0]) == 'new_weight']
+    if len(st) == 2:
+        def _pos(tt, pol):
+            while isinstance(tt, ast.UnaryOp) and isinstance(tt.op, ast.Not):
+                tt, pol = tt.operand, not pol
+            return tt, pol
+        full = [s for s in st if any(_pos(tt, pol)[1] and unparse(_pos(tt, pol)[0]) in ("kwargs.get('all_configs')", "kwargs.get('all_configs') is True") for tt, pol in guards_of(obs, s, stop=f))]
+        ok = len(full) == 1 and unparse(full[0].value) == f.args.args[0].arg
+        ctx.check(rule, 'obs.py:reweight#all_configs', ok, 'all_configs normalises by the weight on all its configurations', 'all_configs branch uses %s' % [unparse(s.value) for s in full])
+    else:
+        ctx.unrec(rule, 'obs.py:reweight#all_configs', 'expected two assignments of the normalising weight')
+    # ratio
+    rat = [c for c in walk(f) if isinstance(c, ast.BinOp) and isinstance(c.op, ast.Div) and unparse(c.right) == 'new_weight']
+    ctx.check(rule, 'obs.py:reweight#ratio', len(rat) == 1 and unparse(rat[0].left) == 'tmp_obs', '<w o>/<w>', 'ratio not found as tmp_obs / new_weight')
+
+    # correlate
+    f = obs.func('correlate')
+    t = Tags(ctx, obs, f, rule)
+    t.run()
+    n_prod += t.products
+    # the idl equality guard must run over all names before the product loop
+    guard_loops = [s for s in f.body if isinstance(s, ast.For) and any(isinstance(x, ast.Raise) for x in walk(s))]
+    okl = bool(guard_loops) and all(unparse(g.iter).endswith('.names') for g in guard_loops)
+    ctx.check(rule, 'obs.py:correlate#guard-covers-all-chains', okl, 'the equality guard runs over every chain name', 'guard loop iterates %s' % [unparse(g.iter) for g in guard_loops])
+    # _covariance_element.calc_gamma
+    f = obs.func('_covariance_element.calc_gamma')
+    p = [a.arg for a in f.args.args]
+    t = Tags(ctx, obs, f, rule)
+    # parameters: deltas_i is defined on idx_i
+    t.env = {p[0]: ('name', p[2]), p[1]: ('name', p[3])}
+    t.run()
+    n_prod += t.products
+    outer = obs.func('_covariance_element')
+    for c in walk(outer):
+        if isinstance(c, ast.Call) and isinstance(c.func, ast.Name) and c.func.id == 'calc_gamma' and len(c.args) == 5:
+            d1, d2, i1, i2 = _deltas_ref(c.args[0]), _deltas_ref(c.args[1]), _idl_ref(c.args[2]), _idl_ref(c.args[3])
+            key = 'obs.py:_covariance_element#%s' % unparse(c)[:70]
+            if None in (d1, d2, i1, i2):
+                ctx.unrec(rule, key, 'arguments not of the form X.deltas[k], Y.deltas[k], X.idl[k], Y.idl[k]', obs.loc(c))
+            else:
+                okc = d1 == i1 and d2 == i2 and d1[1] == d2[1] and unparse(c.args[4]).endswith('[%s]' % d1[1])
+                ctx.check(rule, key, okc, 'each fluctuation array is passed with its own configuration list, target = intersection for the same replica',
+                          'fluctuations and configuration lists are mismatched in %s' % unparse(c), obs.loc(c))
+    # intersection built from both lists of the same replica
+    inter = [c for c in walk(outer) if isinstance(c, ast.Call) and call_name(c) == '_intersection_idx']
+    for c in inter:
+        a = c.args[0]
+        ok = isinstance(a, ast.List) and len(a.elts) == 2 and all(_idl_ref(e) for e in a.elts) and _idl_ref(a.elts[0])[1] == _idl_ref(a.elts[1])[1] \
+            and _idl_ref(a.elts[0])[0] != _idl_ref(a.elts[1])[0]
+        ctx.check(rule, 'obs.py:_covariance_element#intersection', ok, 'common configurations of the same replica of both observables', 'intersection of %s' % unparse(a), obs.loc(c))
+    ctx.floor('element-wise products of two tagged arrays', n_prod, 3)
+
+    reduce_deltas_rules(ctx, obs, rule)
 
     # qtop_projection: samples, names and idl of one object in one order
     oq = ctx.repo.mod('input.openQCD')
@@ -400,6 +406,24 @@ def d3_flag(ctx):
         if fn == 'correlate':
             ok = ok and isinstance(st[0].value, ast.BoolOp) and isinstance(st[0].value.op, ast.Or)
         ctx.check(rule, key, ok, 'flag of the result = OR over the inputs', 'flag computed as `%s`' % txt, obs.loc(st[0]))
+    # the flag is tested with `is True` downstream (derived_observable, correlate): it has to be a Python bool, a numpy reduction
+    # (np.max / np.any / np.sum ...) yields np.True_, for which `x is True` is False
+    tests_identity = any(isinstance(c, ast.Compare) and len(c.ops) == 1 and isinstance(c.ops[0], ast.Is) and isinstance(c.left, ast.Attribute) and c.left.attr == 'reweighted'
+                         and isinstance(c.comparators[0], ast.Constant) and c.comparators[0].value is True for c in walk(obs.tree, skip_nested_defs=False))
+    nflag = 0
+    for mn_ in ('obs', 'linalg', 'correlators'):
+        m_ = ctx.repo.mod(mn_)
+        for q_, f_ in m_.functions():
+            for s_ in statements(f_):
+                if isinstance(s_, ast.Assign) and any(isinstance(t_, ast.Attribute) and t_.attr == 'reweighted' for t_ in s_.targets):
+                    nflag += 1
+                    npcalls = [c for c in walk(s_.value) if isinstance(c, ast.Call) and (m_.dotted(c.func) or '').startswith('numpy.')]
+                    outer_bool = isinstance(s_.value, ast.Call) and call_name(s_.value) == 'bool'
+                    ctx.check(rule, '%s.py:%s#flag-is-bool' % (mn_, q_), not (tests_identity and npcalls and not outer_bool),
+                              'the stored flag is a Python bool (it is compared with `is True`)',
+                              'the flag is stored as the result of %s: a numpy bool, for which the `reweighted is True` tests of derived_observable / correlate fail - everything derived from this '
+                              'result loses the flag' % unparse(npcalls[0].func) if npcalls else '', m_.loc(s_))
+    ctx.floor('stores of the reweighted flag', nflag, 4)
     # every other function of the package that constructs an Obs from the samples of existing observables
     n = 0
     for mn in ('obs', 'linalg', 'correlators', 'fits', 'roots', 'integrate', 'misc'):
